@@ -98,6 +98,7 @@ def execute(case, phase, prefix, seed):
     data = lib_imm.payload(case["size"], seed, b"c01")
     ch = grid.Chooser(prefix)
     g = grid.Grid(case["S"], chooser=ch, client_kw=dict(k=case["k"], n=case["n"], happy=case["happy"], max_segment_size=case["seg"]))
+    g.sched.batch = bool(case.get("batch"))     # turn granularity, see grid.Sched.batch
     viol = []
     obs = {}
     try:
@@ -215,6 +216,11 @@ def run(tier, seed):
     d_bound = 2 if tier == "quick" else 3
     B = [(c, ph) for c in subgrid(tier) for ph in ("upload", "download")]
     rb = common.pmap(_chunk_b, B, (seed, d_bound), chunks=len(B))
+    # several answers per reactor turn (grid.Sched.batch): every third configuration at the default
+    # schedule, the sub-grid with one deviation less
+    res.merge(common.pmap(_chunk_a, [dict(c, batch=True) for c in A[::3]], (seed,), chunks=min(len(A), 256)))
+    nA = res.counts.get("executions", 0)
+    rb.merge(common.pmap(_chunk_b, [(dict(c, batch=True), ph) for (c, ph) in B], (seed, d_bound - 1), chunks=len(B)))
     res.merge(rb)
     cov = {
         "states": res.counts.get("executions", 0),
@@ -226,7 +232,7 @@ def run(tier, seed):
         "deviation_bound_completed": d_bound,
         "distinct_configurations": len(res.distinct),
         "capped_trees": rb.counts.get("capped", 0),
-        "rule": "A: every configuration of configs(tier) under the default schedule; B: for each sub-grid configuration and each phase (upload / download) every schedule with <= %d deviations; states = complete executions (each is a run of the real code), transitions = remote-call deliveries performed" % d_bound,
+        "rule": "A: every configuration of configs(tier) under the default schedule; B: for each sub-grid configuration and each phase (upload / download) every schedule with <= %d deviations; both again with several answers delivered per reactor turn (every third configuration; one deviation less); states = complete executions (each is a run of the real code), transitions = remote-call deliveries performed" % d_bound,
     }
     return res, cov
 
